@@ -539,7 +539,31 @@ class C2Http:
             if isinstance(c2data, ClientC2Data):
                 yield CallbackPacket(plaintext)
             elif isinstance(c2data, ServerC2Data):
-                yield TaskPacket(plaintext)
+                yield from iter_task_packets(plaintext)
+
+
+def iter_task_packets(plaintext: bytes) -> Iterator[TaskPacket]:
+    """Yield a :class:`TaskPacket` for every task in the decrypted `plaintext` of a Team Server response.
+
+    The Team Server can deliver several queued tasks in one response::
+
+       | epoch | total_size | command | size | data | command | size | data | ... | padding |
+
+    Every yielded packet carries the `epoch` and `total_size` of the response.
+    """
+    packet = TaskPacket(plaintext)
+    yield packet
+    header = plaintext[:8]  # epoch, total_size
+    end = min(len(plaintext), 8 + packet.total_size)
+    offset = 8 + 8 + packet.size
+    while offset + 8 <= end:
+        try:
+            packet = TaskPacket(header + plaintext[offset:end])
+        except EOFError:
+            # size of this task exceeds the response
+            break
+        yield packet
+        offset += 8 + packet.size
 
 
 # ------------------
